@@ -405,16 +405,18 @@ class MLists(Model):
   iter_next(li, i) is one step of a list iterator: element i, or StopIteration once i >= len (the live length, as CPython does)."""
   cls = "lists"
 
-  def __init__(self, name, nlists, cells):
+  def __init__(self, name, nlists, cells, initial=()):
     super().__init__(name)
     self.nlists, self.cells = nlists, cells
+    self.initial = [list(x) for x in initial]      # lists that exist at the start (numbers 1..len(initial))
 
   def init(self):
-    d = {self.v("next"): 1}
+    d = {self.v("next"): 1 + len(self.initial)}
     for j in range(self.nlists):
-      d[self.v("len%d" % j)] = 0
+      items = self.initial[j] if j < len(self.initial) else []
+      d[self.v("len%d" % j)] = len(items)
       for i in range(self.cells):
-        d[self.v("c%d_%d" % (j, i))] = 0
+        d[self.v("c%d_%d" % (j, i))] = items[i] if i < len(items) else 0
     return d
 
   def apply(self, B, st, op, args, tid):
@@ -454,6 +456,16 @@ class MLists(Model):
           up[self.v("c%d_%d" % (j, c))] = B.ite(B.and_(me, B.eq(lens[j], K(c))), x, st[self.v("c%d_%d" % (j, c))])
       room = B.ult(ln, K(self.cells))
       return [(room, "ok", K(NONE), up), (B.not_(room), "exc:ModelCapacity", None, {})]
+    if op == "concat_new":       # lst + [x]: one C-level call that makes a new list (the next free one) out of the live contents of lst
+      x = args[1]
+      up = {self.v("next"): B.add(nx, K(1))}
+      for j in range(self.nlists):
+        me = B.eq(nx, K(j + 1))
+        up[self.v("len%d" % j)] = B.ite(me, B.add(ln, K(1)), lens[j])
+        for c in range(self.cells):
+          up[self.v("c%d_%d" % (j, c))] = B.ite(me, B.ite(B.ult(K(c), ln), elem(K(c)), B.ite(B.eq(K(c), ln), x, K(0))), st[self.v("c%d_%d" % (j, c))])
+      room = B.and_(B.ule(nx, K(self.nlists)), B.ult(ln, K(self.cells)))
+      return [(room, "ok", nx, up), (B.not_(room), "exc:ModelCapacity", None, {})]
     if op == "replace":          # lst[:] = [...]: one C-level call; args: list, new length, new cells
       n2, new = args[1], args[2:]
       up = {}
